@@ -167,6 +167,8 @@ type Client struct {
 
 type World struct {
 	Sc       *Scenario
+	Opts     *core.Options
+	Handler  core.EventHandler
 	VW       *core.VerifWorld
 	Ln       *vsys.Sock
 	Clients  []*Client
@@ -300,6 +302,12 @@ func (sc *Scenario) ReplicaSet(slot int) (master string, replicas []string) {
 
 // Execute runs one execution of the scenario under the given chooser.
 func Execute(sc *Scenario, choose vsys.Chooser) *World {
+	return ExecuteWith(sc, choose, nil)
+}
+
+// ExecuteWith is Execute with a custom boot step (boot must set w.VW); nil = the standard boot:
+// real engine on the simulated kernel, topology injected through the real refresh code, one ticker round.
+func ExecuteWith(sc *Scenario, choose vsys.Chooser, boot func(w *World)) *World {
 	w := &World{Sc: sc, KV: map[string]map[string]string{}, dialCount: map[string]int{}}
 	w.faultUsed = make([]bool, len(sc.Faults))
 	vsys.Reset()
@@ -338,13 +346,13 @@ func Execute(sc *Scenario, choose vsys.Chooser) *World {
 	if conns == 0 {
 		conns = 1
 	}
-	opts := &core.Options{ReadBufferCap: rc, WriteBufferCap: wc, RedisMsgMaxLength: ml, RedisServerConnections: conns,
+	w.Opts = &core.Options{ReadBufferCap: rc, WriteBufferCap: wc, RedisMsgMaxLength: ml, RedisServerConnections: conns,
 		RedisConnectionTimeout: 200, RedisRequestTimeout: sc.TimeoutMs, RedisPasswd: sc.Password}
 	retry := sc.RetryTimeoutMs
 	if retry == 0 {
 		retry = 500
 	}
-	h := server.NewListenServer(server.WithRedisPassword(sc.Password), server.WithServerRetryTimeout(retry), server.WithDisableRedisSlave(sc.DisableSlave))
+	w.Handler = server.NewListenServer(server.WithRedisPassword(sc.Password), server.WithServerRetryTimeout(retry), server.WithDisableRedisSlave(sc.DisableSlave))
 
 	for i := range sc.Clients {
 		cs := &sc.Clients[i]
@@ -370,7 +378,11 @@ func Execute(sc *Scenario, choose vsys.Chooser) *World {
 				w.notePanic(r, "")
 			}
 		}()
-		vw, err := core.VerifBoot(h, w.Ln.Fd, opts, NodesText(sc.Nodes), func(addr string) (*redis.Info, error) {
+		if boot != nil {
+			boot(w)
+			return
+		}
+		vw, err := core.VerifBoot(w.Handler, w.Ln.Fd, w.Opts, NodesText(sc.Nodes), func(addr string) (*redis.Info, error) {
 			return &redis.Info{MasterLinkStatus: "up", Version: "6.0.0"}, nil
 		})
 		if err != nil {
